@@ -291,21 +291,22 @@ def heap_model_signature(fc):
 def batch_replay(plan, wdir, crate, pending, log):
     """concrete playback for many failing harnesses: Kani re-runs (parallel) print the concrete values, then ONE native
     `cargo kani playback` build runs all generated tests. returns {harness: (verdict, info)}"""
-    import concurrent.futures as cf
-    def get_blocks(item):
-        h, r, key, row, fc = item
-        cmd = kani_cmd(plan, wdir, ["--harness", key or h.name, "--exact", "-Z", "concrete-playback", "--concrete-playback=print"])
-        rc, out = sh(cmd, cwd=crate, log=None, timeout=3600)
-        allb = parse_playback_print(out)
-        if h.unreachable:
-            sel = [b for b in allb if any(m in b["check"] for m in h.unreachable)][:2]
-        else:
-            sel = [b for b in allb if b["kind"] != "cover"][:3] or [b for b in allb if b["kind"] == "cover"][:3]
-        return h.name, sel, out[-800:]
+    # ONE Kani invocation for all failing harnesses (each separate `--harness` selection would re-run the compiler on the crate)
+    # (`--concrete-playback` is incompatible with `--jobs`: the selected harnesses run one after another)
+    cmd = kani_cmd(plan, wdir, ["--harness-timeout", str(plan.timeout_s or 300)])
+    for (h, r, key, row, fc) in pending:
+        cmd += ["--harness", key or h.name]
+    cmd += ["--exact", "-Z", "concrete-playback", "--concrete-playback=print"]
+    rc, out = sh(cmd, cwd=crate, log=None, timeout=7200)
+    allb = parse_playback_print(out)
     blocks = {}
-    with cf.ThreadPoolExecutor(6) as ex:
-        for name, sel, tail in ex.map(get_blocks, pending):
-            blocks[name] = (sel, tail)
+    for (h, r, key, row, fc) in pending:
+        mine = [b for b in allb if b["harness"] == (key or h.name) or b["harness"].endswith("::" + h.name)]
+        if h.unreachable:
+            sel = [b for b in mine if any(m in b["check"] for m in h.unreachable)][:2]
+        else:
+            sel = [b for b in mine if b["kind"] != "cover"][:3] or [b for b in mine if b["kind"] == "cover"][:3]
+        blocks[h.name] = (sel, out[-600:] if not mine else "")
     lib = os.path.join(crate, "src", "lib.rs")
     tests = {}
     add = []
@@ -337,7 +338,7 @@ def batch_replay(plan, wdir, crate, pending, log):
             res[h.name] = ("no-playback", {"reason": "Kani produced no concrete playback test for a failed check", "tail": blocks.get(h.name, ([], ""))[1]})
             continue
         ran = [(t, b, outcome.get(t)) for t, b in ts]
-        info = {"harness_path": key, "tests": [{"test": t, "check": b["check"][:200], "native": o, "concrete_values": [v.strip() for v in re.findall(r"//\s*(.*)", b["vals"])],
+        info = {"harness_path": key, "playback_source": "".join(a for a in add if any(("fn %s()" % t) in a for t, _ in ts)), "tests": [{"test": t, "check": b["check"][:200], "native": o, "concrete_values": [v.strip() for v in re.findall(r"//\s*(.*)", b["vals"])],
                                                 "panic": pan.get(t)} for t, b, o in ran]}
         if all(o is None for _, _, o in ran):
             res[h.name] = ("no-playback", dict(info, reason="native playback did not run"))
@@ -504,7 +505,9 @@ def run_property(plan, tier, seed, t_start):
         # genuine candidate: replayed natively below (batched: one native build for all of them)
         pending.append((h, r, key, row, fc))
 
-    MAXR = int(os.environ.get("VERIF_MAX_REPLAY", "24"))
+    MAXR = int(os.environ.get("VERIF_MAX_REPLAY", "40"))
+    # failures that carry a property assertion of the harness first; pure heap-model signatures last
+    pending.sort(key=lambda it: (1 if heap_model_signature(it[4]) else 0, 0 if any((c.get("category") == "assertion" and "kani_lib.c" not in json.dumps(c.get("location") or {})) for c in it[4]) else 1))
     for (h, r, key, row, fc) in pending[MAXR:]:
         row["outcome"] = "failed-not-replayed"
         inconclusive.append("harness %s failed; replay budget (%d) exhausted" % (h.name, MAXR))
@@ -604,3 +607,42 @@ def write_evidence(plan, tier, seed, t_start, rows, stats, inconclusive, violati
     os.makedirs(EVIDENCE_DIR, exist_ok=True)
     with open(os.path.join(EVIDENCE_DIR, plan.pid + ".json"), "w") as f:
         json.dump(ev, f, indent=1)
+
+
+def replay_file(mod, pid, path):
+    """./check <ID> --replay <replay.json>: re-run the recorded concrete values natively against /repo's current tree.
+    exit 1 = the violation reproduces, 0 = it does not (any more), 2 = could not be run."""
+    d = json.load(open(path))
+    if "replay" not in d or "tests" not in d.get("replay", {}):
+        print("replay file carries no concrete playback tests (e.g. a message-level finding): %s" % json.dumps(d)[:400])
+        return 2
+    tier = d.get("tier", "quick")
+    seed = int(os.environ.get("VERIF_SEED", "0") or 0)
+    plan = mod.generate(tier, seed)
+    wdir = os.path.join(WORK, "%s-replay" % pid)
+    os.makedirs(wdir, exist_ok=True)
+    crate = prepare_crate(plan, wdir)
+    ctx = {"wdir": wdir, "crate": crate, "tier": tier, "seed": seed, "plan": plan}
+    for step in plan.pre_steps:
+        step(ctx)
+    fq = d["replay"]["harness_path"]
+    marker = any("MARKER" in (t.get("check") or "") for t in d["replay"]["tests"])
+    add = []
+    names = []
+    for n, t in enumerate(d["replay"]["tests"]):
+        vals = ", ".join("vec![%s]" % v for v in [])  # values are re-read from the stored test source below
+    src = d["replay"].get("playback_source")
+    lib = os.path.join(crate, "src", "lib.rs")
+    if not src:
+        print("replay file has no stored test source")
+        return 2
+    open(lib, "a").write(src)
+    rc, out = sh(["cargo", "kani", "playback", "-Z", "concrete-playback", "--features", ",".join([plan.pid.lower()] + plan.features), "--", "vp_playback_"],
+                 cwd=crate, env={"CARGO_TARGET_DIR": os.path.join(wdir, "target-pb")}, timeout=7200)
+    res = re.findall(r"test (?:\w+::)*(vp_playback_\w+) \.\.\. (ok|FAILED)", out)
+    print("\n".join("%s %s" % r for r in res) or out[-1500:])
+    if not res:
+        return 2
+    reproduced = any(o == "ok" for _, o in res) if marker else any(o == "FAILED" for _, o in res)
+    print("REPRODUCED" if reproduced else "not reproduced on the current tree")
+    return 1 if reproduced else 0
